@@ -226,7 +226,7 @@ def check_pairs(ctx, dec, enc, b, rmeta, spec, origin):
                         'subset %d of the result (source index %d) differs in %s: %r (indices %r)'
                         % (bad[1], bad[2], bad[0], jsonable(bad[3]), list(I)), cspec)
     # out of range by one
-    for I in ([-1], [n], [0, n], [n - 1, -1] if n > 0 else [-1]):
+    for I in ([-1], [n], [0, n], [n - 1, -1] if n > 0 else [-1], [-1, 0], [-1, 0, n - 1], [n, 0], [-n - 1, 0], [0, n + 5]):
         try:
             data = m.subset(I)
             enc.process(data)
